@@ -45,7 +45,7 @@ class ExprPartselectModel(ExprModel):
     def width(self):
         upper = self.upper
         lower = self.lower if self.lower is not None else self.upper 
-        return (upper.val() - lower.val()) + 1
+        return (int(upper.val()) - int(lower.val())) + 1
     
     def is_signed(self):
         return False
